@@ -1,0 +1,81 @@
+//go:build verif
+
+// Contracts for /verif (build tag "verif"): //@ comment blocks and pure ghost functions only.
+package descriptor
+
+// vItem stands for the item type; the generic Table is verified at the instantiation
+// Table[int32, *vItem] (key type as used by wazero, items of pointer shape).
+type vItem struct{ x int }
+
+type vTable = Table[int32, *vItem]
+
+const full = ^uint64(0)
+
+// tabInv: 64 item slots per mask word; spare mask capacity is zero (so that growing by
+// re-slicing exposes empty words); small enough that keys fit in int32.
+func tabInv(t *vTable) bool {
+	return len(t.items) == 64*len(t.masks) && len(t.masks) < 1<<24 &&
+		verif_forall(func(i int) bool { return !(len(t.masks) <= i && i < cap(t.masks)) || t.masks[i] == 0 })
+}
+
+// tabHas is the abstract view: key k is present.
+func tabHas(t *vTable, k int) bool {
+	return k >= 0 && k < 64*len(t.masks) && t.masks[k>>6]&(1<<uint(k&63)) != 0
+}
+
+//@ prop C16 C15
+//@ func (t *Table[int32, *vItem]) Lookup(key int32) (item *vItem, found bool)
+//@   requires tabInv(t)
+//@   ensures found == tabHas(t, int(key))
+//@   ensures found ==> item == t.items[key]
+//@   ensures !found ==> item == nil
+//@   modifies nothing
+
+//@ func (t *Table[int32, *vItem]) Delete(key int32)
+//@   requires tabInv(t)
+//@   ensures[inv] tabInv(t) && len(t.masks) == old(len(t.masks))
+//@   ensures[removed] !tabHas(t, int(key))
+//@   ensures[others-unchanged] forall k int :: k != int(key) ==> tabHas(t, k) == old[bool](tabHas(t, k))
+//@   ensures[items-unchanged] forall k int :: 0 <= k && k < len(t.items) && k != int(key) ==> t.items[k] == old[*vItem](t.items[k])
+//@   modifies elems(t.masks), elems(t.items)
+
+//@ func (t *Table[int32, *vItem]) grow(n int)
+//@   requires tabInv(t) && 0 <= n && n < 1<<24 && len(t.masks)+n < 1<<24
+//@   ensures[inv] tabInv(t)
+//@   ensures[len] len(t.masks) == old(len(t.masks)) + n
+//@   ensures[masks-kept] forall i int :: 0 <= i && i < old(len(t.masks)) ==> t.masks[i] == old[uint64](t.masks[i])
+//@   ensures[new-empty] forall i int :: old(len(t.masks)) <= i && i < len(t.masks) ==> t.masks[i] == 0
+//@   ensures[items-kept] forall i int :: 0 <= i && i < old(len(t.items)) ==> t.items[i] == old[*vItem](t.items[i])
+//@   ensures[arrays] (verif_fresh_slice(t.masks) || verif_same_array(t.masks, old(t.masks))) && (verif_fresh_slice(t.items) || verif_same_array(t.items, old(t.items)))
+//@   modifies t.masks, t.items, elems(t.masks), elems(t.items)
+
+//@ func (t *Table[int32, *vItem]) InsertAt(item *vItem, key int32) bool
+//@   requires tabInv(t) && key < 1<<29
+//@   ensures[result] r0 == (key >= 0)
+//@   ensures[inv] tabInv(t)
+//@   ensures[present] r0 ==> tabHas(t, int(key)) && t.items[key] == item
+//@   ensures[others-unchanged] forall k int :: k != int(key) || !r0 ==> tabHas(t, k) == old[bool](tabHas(t, k))
+//@   ensures[items-unchanged] forall k int :: 0 <= k && k < old(len(t.items)) && (k != int(key) || !r0) ==> t.items[k] == old[*vItem](t.items[k])
+//@   modifies t.masks, t.items, elems(t.masks), elems(t.items)
+
+//@ func (t *Table[int32, *vItem]) Insert(item *vItem) (key int32, ok bool)
+//@   requires tabInv(t) && len(t.masks) < 1<<23
+//@   ensures[inv] tabInv(t)
+//@   ensures[ok] ok && key >= 0
+//@   ensures[was-free] !old[bool](tabHas(t, int(key)))
+//@   ensures[present] tabHas(t, int(key)) && t.items[key] == item
+//@   ensures[lowest-free] forall k int :: 0 <= k && k < int(key) ==> old[bool](tabHas(t, k))
+//@   ensures[others-unchanged] forall k int :: k != int(key) ==> tabHas(t, k) == old[bool](tabHas(t, k))
+//@   ensures[items-unchanged] forall k int :: 0 <= k && k < old(len(t.items)) && k != int(key) ==> t.items[k] == old[*vItem](t.items[k])
+//@   modifies t.masks, t.items, elems(t.masks), elems(t.items)
+//@   loop 0 (offset int)
+//@     invariant tabInv(t) && 0 <= offset && offset <= len(t.masks) && len(t.masks) <= old[int](len(t.masks)) + 1
+//@     invariant offset == 0 || offset == old[int](len(t.masks))
+//@     invariant len(t.masks) >= old[int](len(t.masks)) && (len(t.masks) > old[int](len(t.masks)) ==> offset == old[int](len(t.masks)))
+//@     invariant forall i int :: 0 <= i && i < offset ==> t.masks[i] == full
+//@     invariant forall i int :: 0 <= i && i < old[int](len(t.masks)) ==> t.masks[i] == old[uint64](t.masks[i])
+//@     invariant forall i int :: old[int](len(t.masks)) <= i && i < len(t.masks) ==> t.masks[i] == 0
+//@     invariant forall i int :: 0 <= i && i < old[int](len(t.items)) ==> t.items[i] == old[*vItem](t.items[i])
+//@   loop 1 (offset int, rangeindex int)
+//@     invariant -1 <= rangeindex && rangeindex < len(t.masks)-offset || (rangeindex == -1 && offset == len(t.masks))
+//@     invariant forall i int :: offset <= i && i <= offset+rangeindex ==> t.masks[i] == full
